@@ -110,7 +110,7 @@ def block(name, page, pname, ptext, quad, known, pend=False):
     lo, hi = quad * 64, quad * 64 + 63
     pendtxt = ' entered with the first prefix byte pending from a previous call of a DD/FD chain (active_prefix set, interrupts inhibited)' if pend else ''
     if known == 0:
-        prop, expect = 'C01 C03', 'pass'
+        prop, expect = 'C01 C03 C04', 'pass'
         assume = ('pending prefix implies inhibited sampling (representation invariant); the regions of KF-C01-1 / KF-C01-2 '
                   '(MEMPTR after LD (nn),A with hi(nn+1) & !A != 0, after OUT (n),A with n == 0xFF and A even; both fixed) are excluded here and '
                   'covered by the c01_known_* harnesses') if page in (0, 3, 4) else 'pending prefix implies inhibited sampling (representation invariant)'
@@ -187,7 +187,7 @@ C02_OUTSIDE = 'NMI directly after EI/DI or inside a prefix chain; IM 0 with a bu
 
 def c02_block(name, sym, bound, body, timeout=600, tier='quick'):
     return '\n'.join([
-        '// @harness', '// @prop C02 C03', '// @tier ' + tier, '// @timeout %d' % timeout, '// @fn ' + C02_FN,
+        '// @harness', '// @prop C02 C03' + (' C05' if tier == 'quick' else ''), '// @tier ' + tier, '// @timeout %d' % timeout, '// @fn ' + C02_FN,
         '// @sym whole CPU state incl. halted, skip_interrupt, pending prefix (none/DD/FD/ED), IFF1/2, IM, Q; per call: INT level, NMI level, bus byte and vector table bytes, operand bytes; ' + sym,
         '// @assert ' + C02_ASSERT, '// @bound ' + bound + '; 18-slot event log loops (unwind 19)',
         '// @assume ' + C02_ASSUME, '// @outside ' + C02_OUTSIDE,
